@@ -379,6 +379,9 @@ func (c *Ctx) guardedBy(g guardedField, exemptFns map[string]string) {
 				}
 				if holds(must, want, isStore) {
 					c.ok(key, r.Pos(), "access under %s", want)
+				} else if newHelpers[owner] && holds(heldAt(r, 0), "."+g.Mutex, isStore) {
+					// a new helper that documents "caller must hold the lock": held at every call site
+					c.ok(key, r.Pos(), "access under %s held by every caller of the helper", g.Mutex)
 				} else {
 					mode := "read"
 					if isStore {
